@@ -47,6 +47,8 @@ def extra_fields(rng, sch, n):
     f[f'qf{n}'] = ('arr', gen.NUM, rng.choice((1, 2, 3, 5)))
     f[f'qm{n}'] = ('msg', {f'in{n}': gen.NUM, f'deep{n}': ('msg', {f'leaf{n}': gen.NUM}, {})}, {})
     f[f'qy{n}'] = ('arr', gen.NUM, -1)
+    f[f'qp{n}'] = gen.NUM  # two fields only ever compared with each other: any primitive declaration fits
+    f[f'qq{n}'] = gen.NUM
     return ('msg', f, dict(sch[2]))
 
 
@@ -174,6 +176,9 @@ def run(ctx):
             # (if any) then shows at a later occurrence of a path already seen
             atom = ('bin', 'and', ('bin', gen.pick(rng, ('=', '!=')), ref, ref), atom)
             ctx.count('weak_first_occurrence')
+        poly = rng.random() < 0.3
+        if poly:
+            atom = ('bin', 'and', atom, ('bin', gen.pick(rng, ('=', '!=')), ('field', root, f'qp{n}'), ('field', root, f'qq{n}')))
         if root != A.THIS:
             # every predicate must still mention its own message: a trivial atom on a numeric own field
             own = sorted(k for k, t in schemas[topic][1].items() if t == gen.NUM)[0]
@@ -240,6 +245,25 @@ def run(ctx):
                 ctx.violation('schema-check-returns-value', w, feats)
             else:
                 ctx.count('valid_passed')
+                if poly:
+                    # history: the same property object against a second schema that is just as valid (the two
+                    # polymorphic fields declared as strings), then against the first again
+                    f2 = dict(ext[1])
+                    f2[f'qp{n}'] = gen.STR
+                    f2[f'qq{n}'] = gen.STR
+                    ext2 = ('msg', f2, ext[2])
+                    mt2 = dict(msg_types)
+                    for key, st in list(schemas.items()) + list(all_aliases.items()):
+                        if st is ext:
+                            mt2[key] = hplapi.type_token(ext2, 'X_' + key.strip('/~').replace('/', '_'), rng)
+                    ctx.count('second_valid_schema_judged')
+                    ctx.evaluation(f'second-schema|{position}|{"alias" if through_alias else "own"}', True)
+                    for label, mt in (('second valid schema', mt2), ('first schema again', msg_types)):
+                        o2 = hplapi.outcome(hp.type_check_references, mt)
+                        if o2[0] != 'ok':
+                            ctx.violation('schema-check-rejects-valid', dict(w, history=label, message=str(o2[1])[:200]),
+                                          feats | {'shape:history', 'exc:' + hplapi.exc_class(o2)})
+                            break
                 if n % 3 == 0:
                     # history / schema-side fault: the same property object against a schema that lacks the fields
                     # (must fail), then against the original schema again (must pass again)
